@@ -23,6 +23,10 @@ pub enum Op {
     FrontMut,
     BackMut,
     IdxMut,
+    /// advance(len - len/5): consume most of a large deque at once
+    AdvMost,
+    /// advance(len/2 + 1)
+    AdvHalf1,
     /// `self.clone_from(&other)`: other holds 7 fresh items (nothing consumed)
     CloneFromLong,
     /// `self.clone_from(&other)`: other held 7 fresh items and consumed 2 of them from the front
@@ -48,6 +52,10 @@ pub const OPS_EXT: [Op; 16] = [
     Op::CloneFromLong,
     Op::CloneFromPopped,
 ];
+
+/// Alphabet for the large-container family (thousands of items: byte-size thresholds such as a
+/// page are crossed).
+pub const OPS_BIG: [Op; 8] = [Op::Push, Op::PopFront, Op::PopBack, Op::Clear, Op::Slide, Op::Adv1, Op::AdvMost, Op::AdvHalf1];
 
 pub const OPS: [Op; 14] = [
     Op::Push,
@@ -83,12 +91,14 @@ impl Op {
             Op::FrontMut => "front_mut=",
             Op::BackMut => "back_mut=",
             Op::IdxMut => "deque[len/2]=",
+            Op::AdvMost => "advance(len-len/5)",
+            Op::AdvHalf1 => "advance(len/2+1)",
             Op::CloneFromLong => "clone_from(7 items)",
             Op::CloneFromPopped => "clone_from(7 items, 2 consumed)",
         }
     }
     pub fn parse(s: &str) -> Option<Op> {
-        OPS_EXT.iter().copied().find(|o| o.name() == s)
+        OPS_EXT.iter().chain(OPS_BIG.iter()).copied().find(|o| o.name() == s)
     }
 }
 
@@ -209,6 +219,8 @@ impl<C: Backing> State<C> {
             Op::AdvLen => advance(self, len)?,
             Op::AdvLen1 => advance(self, len + 1)?,
             Op::AdvMax => advance(self, usize::MAX)?,
+            Op::AdvMost => advance(self, len - len / 5)?,
+            Op::AdvHalf1 => advance(self, len / 2 + 1)?,
             Op::Clear => {
                 self.d.clear();
                 self.m.clear();
@@ -763,7 +775,8 @@ pub fn zst_family(ctx: &Ctx, rep: &mut Report, depth: usize, unit_base: &mut usi
 
 pub fn run(ctx: &Ctx) -> Report {
     let mut rep = Report::new();
-    let cap = 8;
+    // logical lengths up to 24: containers both below and above the 64-byte mark for u32 items
+    let cap = 24;
     // Every worker computes the (tiny) closure; only worker 0 reports its counts.
     let mut scratch = Report::new();
     let cl = closure(&mut scratch, cap);
@@ -799,6 +812,12 @@ pub fn run(ctx: &Ctx) -> Report {
     dfs_straight::<SmallVec<[u32; 2]>>(ctx, &mut rep, 5, depth - 3, &mut unit, &OPS_EXT);
     dfs_straight::<Vec<u32>>(ctx, &mut rep, 0, depth - 2, &mut unit, &OPS_EXT);
     zst_family(ctx, &mut rep, ctx.tier.pick(4, 5), &mut unit);
+    // large containers (4 KiB .. 20 KiB of items), every sequence over the 8-op alphabet, on one object
+    for seed in [1024usize, 1500, 5000] {
+        dfs_straight::<Vec<u32>>(ctx, &mut rep, seed, ctx.tier.pick(4, 5), &mut unit, &OPS_BIG);
+        dfs_straight::<SmallVec<[u32; 2]>>(ctx, &mut rep, seed, ctx.tier.pick(4, 5), &mut unit, &OPS_BIG);
+    }
+    rep.note(format!("C15: large containers: From<container> with 1024, 1500 and 5000 items (Vec and spilled SmallVec), all sequences to depth {} over {:?}", ctx.tier.pick(4, 5), OPS_BIG.iter().map(|o| o.name()).collect::<Vec<_>>()));
     rep.note(format!("C15: the cloning explorers copy the deque before every op (exactly-fitting capacity, so every push meets a full container); the straight explorer re-executes all histories to depth {} on one object (amortised capacities)", depth - 2));
     rep.note(format!(
         "C15: closure over (physical length, consumed prefix) with logical length <= {} reached a fix-point; DFS of all {}-op sequences completed to depth {} (fresh) / {} (From<container> with 3 and 5 items) on Vec, SmallVec<[u32;2]> and SpyVec backings, and of the 16-op alphabet with clone_from one / two levels shallower; debug_assertions={}",
